@@ -27,6 +27,7 @@ import Fir.Proofs.GeomLemmas
 import Fir.Proofs.ReadsLemmas
 import Fir.Proofs.IeeeLemmas
 import Fir.Proofs.SimdU8x3Lemmas
+import Fir.Proofs.SimdU16x3Lemmas
 
 namespace Fir.C03
 open Fir Fir.Bounds Fir.Gen
@@ -219,5 +220,19 @@ theorem u8x3_sse4_one_row_loads_in_row (w start : Nat) (ks : List Int) (hwin : s
   Fir.Proofs.u8x3_sse4_loads_in_row w start ks hwin
 
 example : Fir.SimdU8x3.loads 15 2 [1, 2, 3, 4, 5, 6, 7, 8, 9, 10, 11, 12, 13] = [(2, 16), (6, 16), (10, 8), (12, 8), (14, 3)] := by decide
+
+/-- the RGB16 twin (src/convolution/u16x3/sse4.rs, both kernels): the pair loop - the only place with a 128-bit load, which covers two
+    pixels and a third of the next - runs only when `width - end_x >= 1`; every such load (16 bytes from pixel `x`, 6 bytes per
+    pixel; `Fir.SimdU16x3.loads`) lies inside the row of `w` pixels, for every width, start and number of coefficients.  All other
+    kernels modelled lane by lane load exactly the pixels whose coefficients they consume (`src*` in their models), so their
+    footprint is the coefficient window itself. -/
+theorem u16x3_sse4_loads_in_row (w start : Nat) (ks : List Int) :
+    ∀ x ∈ Fir.SimdU16x3.loads w start ks, 6 * x + 16 ≤ 6 * w :=
+  Fir.Proofs.U16x3.loads_in_row w start ks
+
+example : Fir.SimdU16x3.loads 9 2 [1, 2, 3, 4, 5] = [2, 4] := by decide
+
+/-- ... and when the window ends at the last pixel no 128-bit load is issued at all -/
+example : Fir.SimdU16x3.loads 7 2 [1, 2, 3, 4, 5] = [] := by decide
 
 end Fir.C03
